@@ -1138,6 +1138,7 @@ func (e *Exec) step(st *State, fr *Frame, b *ssa.BasicBlock, i int, in ssa.Instr
 		if !derivedAddr(in.Addr) && !e.mayPanic(st, fr, Eq(loc, NilLoc), "nil-deref", in, nil) {
 			return false, false
 		}
+		e.storeGuards(st, fr, in)
 		e.storeT(st, loc, e.val(st, fr, in.Val).L)
 	case *ssa.MapUpdate:
 		m := e.val(st, fr, in.Map).One()
